@@ -344,6 +344,12 @@ def virtSetVol (muted : Nat → Bool) (root : Nat) (vol : Int) : Int :=
 def voiceVol (c : PlayerVol) (muted : Nat → Bool) (chn root : Nat) (fv : Int) : Int :=
   virtSetVol muted root (masterStage c chn root fv)
 
+/-- Amiga split channel (`xc->split`, Oktalyzer pairs): `libxmp_virt_setvol(ctx, xc->pair, finalvol)` at the very end
+of `process_volume` — the partner's voice gets the volume *after* the master / effects-mixer scaling of the channel
+that computed it, through the partner's own mute lookup -/
+def splitPairVol (c : PlayerVol) (muted : Nat → Bool) (chn root pairRoot : Nat) (fv : Int) : Int :=
+  virtSetVol muted pairRoot (masterStage c chn root fv)
+
 /-- `process_pan` tail: `finalpan` is the clamped 0..255 pan before separation. -/
 def finalPan (fp mix : Int) (mono surround : Bool) : Int :=
   if mono ∨ surround then 0 else Int.tdiv ((fp - 0x80) * mix) (mixDiv.getD 100)
